@@ -146,6 +146,21 @@ def collect():
         last = pyast.unparse(wfn.body[-1])
         bounded &= last in ('return await func(self, *a, **ka)', 'return func(self, *a, **ka)')
     f['requires_auth_bounded'] = bounded
+    # a call that meets AuthRequired while another one is refreshing the authorisation waits for that refresh
+    # (takes and releases the lock) before it retries: it never retries with the stale token
+    waits = True
+    for wfn in wrappers:
+        waits &= not any(isinstance(n, (ast.Continue, ast.Break)) for n in ast.walk(wfn))
+        loop = [n for n in wfn.body if isinstance(n, ast.For)][0]
+        handlers = [h for t in loop.body if isinstance(t, ast.Try) for h in t.handlers]
+        waits &= len(handlers) == 1 and pyast.unparse(handlers[0].type) == 'exceptions.AuthRequired'
+        branch = handlers[0].body
+        waits &= len(branch) == 1 and isinstance(branch[0], ast.If)
+        other = branch[0].orelse
+        waits &= (len(other) == 1 and isinstance(other[0], (ast.With, ast.AsyncWith)) and len(other[0].body) == 1
+                  and isinstance(other[0].body[0], ast.Pass)
+                  and pyast.unparse(other[0].items[0].context_expr) in ('self._async_auth_lock', 'self._auth_lock'))
+    f['requires_auth_waits_for_refresh'] = waits
     RL = pyast.find_class(ut, '_RateLimitedFileWrapper')
     TQ = pyast.find_class(ut, 'TQDMIOBase')
     fw = True
